@@ -13,7 +13,7 @@ def main():
     KINDS = set(sys.argv[5].split(",")) if len(sys.argv) > 5 else {"is_subtype", "find_subtypes", "find_irrelevant", "instantiate", "unify"}
     SCENES = (sys.argv[6], int(sys.argv[7]) if len(sys.argv) > 7 else 24) if len(sys.argv) > 6 else None      # (genlib.setup rewrites sys.argv)
     if SCENES:
-        KINDS |= {"match", "prune", "compare"}
+        KINDS |= {"match", "prune", "compare", "pick"}
     genlib.setup(lang, dis_use=sw["disUse"], dis_contra=sw["disContra"], no_bounds=sw["noBounds"], no_param_fn=sw["noParamFn"])
     import hlib
     import pser
@@ -252,6 +252,38 @@ def main():
                 except Exception as e:  # noqa: BLE001
                     emit({"kind": "prune", "used": [], "after": [], "res": [], "exc": [type(e).__name__]})
                 ct = table(g, {"Foo": {"tp": [{"n": "T", "v": "inv", "b": []}], "sup": []}})
+            elif q["kind"] == "pick":
+                tpar = tp.TypeParameter("T", hlib.VAR[q["v"]])
+                sink = ast.ClassDeclaration("Sink", [], ast.ClassDeclaration.REGULAR, fields=[], functions=[], is_final=True, type_parameters=[tpar])
+
+                def sk(t):
+                    if t["k"] == "W":
+                        return tp.WildCardType(B(g, t["a"][0]["n"]), hlib.VAR[t["n"]])
+                    return B(g, t["n"])
+                vt = {"x": sink.get_type().new([sk(sc["ax"])]), "y": sink.get_type().new([sk(sc["ay"])])}
+                want = sink.get_type().new([sk(sc["w"])])
+                ns = ast.GLOBAL_NAMESPACE + ("test",)
+                for seed in range(nseeds):
+                    utils.random.reset_word_pool()
+                    utils.random.r.seed(seed)
+                    g = fresh()
+                    g.context.add_class(ast.GLOBAL_NAMESPACE, "Sink", sink)
+                    params = [ast.ParameterDeclaration(n, t) for n, t in vt.items()]
+                    fdecl = ast.FunctionDeclaration("test", params, g.bt_factory.get_void_type(), ast.BottomConstant(g.bt_factory.get_void_type()),
+                                                    func_type=ast.FunctionDeclaration.FUNCTION)
+                    g.context.add_func(ast.GLOBAL_NAMESPACE, "test", fdecl)
+                    for pd in params:
+                        g.context.add_var(ns, pd.name, pd)
+                    g.namespace = ns
+                    g.depth = 2
+                    try:
+                        ex = g.gen_variable(want, only_leaves=True, subtype=True)
+                    except Exception as e:  # noqa: BLE001
+                        emit({"kind": "pick", "S": ser(want), "T": ser(want), "res": [], "exc": [type(e).__name__]})
+                        continue
+                    if isinstance(ex, ast.Variable) and ex.name in vt:
+                        emit({"kind": "pick", "S": ser(vt[ex.name]), "T": ser(want), "var": ex.name, "res": [], "exc": []})
+                ct = table(g, {"Sink": {"tp": [{"n": "T", "v": q["v"], "b": []}], "sup": []}})
             else:
                 asked = []
                 orig = g.generate_expr
